@@ -1,0 +1,15 @@
+//go:build verif
+
+package ed25519
+
+import "github.com/cloudflare/pat-go/ed25519/internal/edwards25519"
+
+// Verification hooks (build tag verif only): re-export the internal scalar and
+// point types so that an external checker can drive their arithmetic directly.
+
+type VerifScalar = edwards25519.Scalar
+type VerifPoint = edwards25519.Point
+
+func VerifNewScalar() *VerifScalar        { return edwards25519.NewScalar() }
+func VerifNewIdentityPoint() *VerifPoint  { return edwards25519.NewIdentityPoint() }
+func VerifNewGeneratorPoint() *VerifPoint { return edwards25519.NewGeneratorPoint() }
